@@ -22,13 +22,14 @@ _T = [
     ("mpc",           "^TestC11_Mpc$",           (5, 2, 60, 25)),
     ("vkreuse",       "^TestC11_VkReuse$",       (10, 4, 200, 80)),
     ("srs",           "^TestC11_SRS$",           (6, 3, 60, 25)),
+    ("generic",       "^TestC11_GenericSRS$",    (4, 4, 40, 40)),
 ]
 
 _jobs = []
 for _n, _run, (_qc, _qr, _tc, _tr) in _T:
     _jobs.append(dict(name=_n, pkg="c11", run=_run, shards=CORE, checks=(_qc, _tc), timeout=(900, 5400)))
     _jobs.append(dict(name=_n + ".rest", pkg="c11", run=_run, shards=REST, checks=(_qr, _tr), timeout=(900, 5400)))
-_jobs.append(dict(name="regress", pkg="c11", run="^TestC11_(Regress.*|BatchArity|MimcTranscriptProbe)$", shards=PAIRING, rapid=False))
+_jobs.append(dict(name="regress", pkg="c11", run="^TestC11_(Regress.*|BatchArity|MimcTranscriptProbe|GenericSRSTypes)$", shards=PAIRING, rapid=False))
 
 PROP = dict(
     rule=("a case is non-trivial when the polynomial has 1 or size coefficients, or is the zero polynomial, or the "
@@ -53,12 +54,17 @@ PROP = dict(
         "soundness of MpcSetup.Verify belongs to C17",
         "batches of unequal-length polynomials are outside the documented precondition: behaviour recorded in the histogram, not asserted",
         "UnsafeReadFrom / ReadDump are exercised on honest data only (documented as unchecked)",
+        "the curve-agnostic package kzg exports only NewSRS(curveID) and the SRS/Serializable/BinaryDumper interfaces: every pairing-curve ID "
+        "must yield that curve's *kzg.SRS and restore that curve's SRS from every encoding; IDs without a KZG package panic in the source "
+        "but nothing is documented, so that is recorded, not asserted",
+        "every job runs on all 7 pairing curves in both tiers (no rotation); the four core curves only get more cases",
     ],
     mandatory_all=["len:1", "len:size", "p:zero", "z:root", "z:tau", "tuple:accept", "tuple:reject", "batch>=2",
                    "honest:single", "honest:batch", "honest:multi", "frontier:single", "frontier:batch", "frontier:multi",
                    "tamper:single", "tamper:batch", "tamper:multi", "tamper:still_true", "serial:dump", "serial:MpcSetup",
                    "serial:MpcSetup:seal", "serial:OpeningProof", "serial:BatchOpeningProof", "history:vk_reuse",
-                   "srs:minus1", "srs:structure", "points:reference", "points:library", "H=infinity", "digest:infinity"],
+                   "srs:minus1", "srs:structure", "points:reference", "points:library", "H=infinity", "digest:infinity"]
+                  + ["generic_kzg:" + c for c in PAIRING],
     jobs=_jobs,
 )
 
